@@ -747,7 +747,10 @@ def footprint_jobs(ctx, datasets, rng, quick):
     for di, (spec, path) in enumerate(datasets):
         ops = fixed_ops(spec)
         ops += [gen_op(rng, spec) for _ in range(2 if quick else 6)]
-        fresh_ops = ops if (di == 0 or not quick) else [o for o in ops if o["op"] not in ("stats_fn", "meta", "filter_rgs", "deepcopy") and o != {"op": "sorted_cols"}]
+        # quick: the whole fixed list on fresh handles for the first dataset; for the others the family members that differ by
+        # dataset kind only (warm handles and forced / storm / stress schedules still use every operation on every dataset)
+        fresh_ops = ops if (di == 0 or not quick) else [o for o in ops if o["op"] not in ("stats_fn", "meta", "filter_rgs", "deepcopy", "copy", "schema_text", "columns")
+                                                        and o != {"op": "sorted_cols"} and not (o.get("row_filter") and o.get("columns") == ["s"])]
         for i in range(0, len(fresh_ops), 3):
             jobs.append(mk(path, "fresh", fresh_ops[i:i + 3]))
             owner.append(di)
@@ -767,6 +770,8 @@ def footprint_jobs(ctx, datasets, rng, quick):
         # in the thorough tier for all
         short = [o for o in ops if o["op"] in ("slice_only", "count", "statistics", "columns", "head", "schema_text", "sorted_cols", "meta")]
         osel = (short[:3] + short[-2:]) if (quick or spec["kind"] == "file") else (short + [o for o in ops if o["op"] in ("slice", "pickle", "index")][:4] + ops[1:3])
+        if quick and di > 0:
+            osel = osel[:2]             # instruction-granular traces are the most expensive jobs: the full short list for the first dataset only
         for i in range(0, len(osel), 3):
             jobs.append(mk(path, "fresh-opcode", osel[i:i + 3]))
             owner.append(di)
@@ -1256,6 +1261,19 @@ def site_search(ctx, datasets, rng, quick, target):
             if check_pair(ctx, spec, path, solo, [a, b], plan, "site-double", opc):
                 ctx.extra["site_search_runs"] = ctx.extra.get("site_search_runs", 0) + runs
                 return
+    # a reader that issues its operation TWICE on the shared handle (the second pass meets what the first cached), preempted after
+    # its j-th bytecode instruction at a statement that mentions the location; the writer runs completely in the gap
+    if OPC["ok"]:
+        clock = Clock(ctx, "site_search", 150 if quick else 900)
+        for fn_b, ln_b, b in target.get("readers_at", []):
+            b2 = {"op": "seq", "ops": [b, b]}
+            for j in range(1, 41):
+                if clock.over():
+                    break
+                runs += 1
+                if check_pair(ctx, spec, path, solo, [a, b2], [[1, j, "in", fn_b, ln_b], [0, BIG, "lines"], [1, BIG, "lines"]], "site-seq", [False, True]):
+                    ctx.extra["site_search_runs"] = ctx.extra.get("site_search_runs", 0) + runs
+                    return
     for b in readers:
         plans = [([[0, n, "left", file, line], [1, BIG, "lines"]], False) for n in (1, 2, 3)]
         if OPC["ok"]:
